@@ -835,8 +835,8 @@ func c02R10(c *Ctx, r *Report) {
 		fns = append(fns, c.FuncsIn(p)...)
 	}
 	errUseRule(c, r, rule, fns, func(fn *ssa.Function, cc *ssa.CallCommon) (string, bool) { return storageCallee(cc) }, map[string]string{
-		"database.Register / database.saveRegistry":         "best-effort persistence of the registry after a registration; the registration itself already succeeded in memory",
-		"database.registryWriter / database.saveRegistry":  "periodic best-effort save; the next tick retries",
+		"database.Register / database.saveRegistry":       "best-effort persistence of the registry after a registration; the registration itself already succeeded in memory",
+		"database.registryWriter / database.saveRegistry": "periodic best-effort save; the next tick retries",
 	})
 }
 
